@@ -221,6 +221,11 @@ impl RtpHeader {
             if ext_id == 15 {
                 break;
             }
+            if offset + len > ext.data.len() {
+                // Truncated trailing element in a received block (get_extension
+                // cannot read it either): drop the malformed tail.
+                break;
+            }
 
             if ext_id == id {
                 found = true;
